@@ -128,6 +128,24 @@ def history (c : Cfg) (L : Layout) : RS → List (Bytes × Option Fault) → RS 
     let r := history c L a.st rest
     (r.1, (a.cmds, a.res) :: r.2)
 
+
+/-! ## what a fresh reader reports at the end of a history
+
+`Tlv.readNdef` transcribes the readers as they were before the repair "TLVs that exceed the data area are not
+accepted": the tree's readers now return `None` when the NDEF TLV's length field or value is not stored
+completely inside the data area (Type 2: `head > end or len(ndef) > len(room)`; Type 1: `read_tlv` gives up at
+`end`), and the Type 1 reader returns `None` when the tag stops answering in the middle of a TLV.  On the images
+the theorems speak about (a completed write on a well-formed layout) the guard is true; it only matters for the
+torn images an executed-but-unacknowledged command can leave behind. -/
+def readBack (c : Cfg) (m : Bytes) : Py (Option Layout) :=
+  match readNdef c m with
+  | .error (.tagCmd n) => if c.t1 then .ok none else .error (.tagCmd n)
+  | .error e => .error e
+  | .ok none => .ok none
+  | .ok (some L) =>
+    let head := L.off + (if m[L.off + 1]? = some 255 then 4 else 2)
+    if head ≤ L.areaEnd ∧ L.ndef.length ≤ countFree L.skip head L.areaEnd then .ok (some L) else .ok none
+
 /-! ## Type 3 -/
 
 /-- `runW` with a fault: the reader-side checks of a command come first (they raise before anything is sent) -/
